@@ -720,7 +720,10 @@ func isNumeric(sys System, s string) (int64, bool) {
 		// NuGet uses int32 for prerelease components.
 		n, err = strconv.ParseInt(s, 10, 32)
 	} else {
-		n, err = strconv.ParseInt(s, 10, 64)
+		// A sign is not part of a number: "-1" is an alphanumeric identifier.
+		var u uint64
+		u, err = strconv.ParseUint(s, 10, 63)
+		n = int64(u)
 	}
 	if err != nil {
 		return 0, false
